@@ -1867,6 +1867,9 @@ class ModelsOps:
                 if ar.exc.name == "AttributeError" and len(args) > 2:
                     return args[2]
                 raise
+        if name == "setattr" and len(args) == 3 and isinstance(args[1], StrV) and args[1].const is not None:
+            self.set_attr(args[0], args[1].const, args[2], node)
+            return NONE
         if name in ("set", "frozenset") and args:
             sq = self.iterate(args[0], node)
             if sq is not None:
